@@ -33,13 +33,19 @@ func TestVerifReplay(t *testing.T) {
 	}
 	for i, it := range items {
 		out := func() (o string) {
+			var res string
 			defer func() {
 				if r := recover(); r != nil {
+					if res != "" && res != "VREPLAY ok" {
+						// the harness already reported (e.g. a failed assertion); the bubble's own complaint
+						// about goroutines left behind comes second
+						o = res
+						return
+					}
 					o = fmt.Sprintf("VREPLAY panic=%v", r)
 					_ = debug.Stack
 				}
 			}()
-			var res string
 			vTierVal = it.Tier
 			if strings.HasSuffix(it.Harness, "_RT") {
 				// real-time harness (goroutines parked on mutexes cannot be replayed under synctest)
